@@ -1,6 +1,7 @@
 package props
 
 import (
+	"encoding/json"
 	"fmt"
 	"sort"
 	"strings"
@@ -192,6 +193,7 @@ func C14(tier string) int {
 	explore.Sweep(ns, c, deadline, explore.Opts{Kinds: []run.Kind{run.SymbolsFile}, OnResult: c14Result})
 	// part B: workspace symbols, every subset of unreadable paths, all query substrings
 	c14Workspace(c, tier)
+	c14JSONOrder(c)
 	return c.Finish(report.FinishOpts{
 		Tier: tier, Level: "fault_enumeration", EvalCounter: "calls",
 		Rule: "part A: document symbols of every file of the E1 families (with schema and without) compared one-to-one, in order, names and ranges, with an independent walk of the hclsyntax tree, child range inside parent; part B: worlds of 1..4 paths x EVERY subset of paths whose PathContext fails x every query (all substrings of length <=3 of every symbol name, empty, non-matching): result == concatenation over readable paths of matching top-level symbols; non-trivial = at least one symbol expected",
@@ -318,6 +320,73 @@ func c14Workspace(c *report.Collector, tier string) {
 						l.Count("nontrivial", 1)
 						l.Outcome(fmt.Sprint(np, failMask, hideMask, qstr, want))
 					}
+				}
+			}
+		}
+	}
+}
+
+
+// c14JSONOrder (part C): JSON files decoded with a schema. The abstract configurations of the C19 generator
+// are rendered to JSON in object form and in array form; where a configuration keeps the blocks of one type
+// together, the order of the JSON members is the order of the configuration's items, and the outline (per
+// file and workspace-wide) must list exactly those attributes and blocks, in that order, at every level.
+func c14JSONOrder(c *report.Collector) {
+	l := report.NewLocal()
+	defer c.Merge(l)
+	var expect func(items []citem) []projSym
+	expect = func(items []citem) []projSym {
+		var out []projSym
+		for _, it := range items {
+			if it.block == "" {
+				out = append(out, projSym{"attr", it.attr, nil})
+				continue
+			}
+			name := it.block
+			for _, lb := range it.labels {
+				name += fmt.Sprintf(" %q", lb)
+			}
+			out = append(out, projSym{"block", name, expect(it.body)})
+		}
+		return out
+	}
+	ent := gen.Entry{ID: "J:c19", Mk: c19Schema, Family: "struct", Hooks: -1}
+	cfgs := append(c19Configs(), c19MoreConfigs()...)
+	for _, cfg := range cfgs {
+		if !grouped(cfg) {
+			continue
+		}
+		want := fmt.Sprint(expect(cfg))
+		for _, arrayForm := range []bool{false, true} {
+			jb, err := json.MarshalIndent(renderJSON(cfg, arrayForm), "", "  ")
+			if err != nil {
+				continue
+			}
+			js := string(jb) + "\n"
+			w := world.Build(explore.EntrySpec(&ent, []world.FileSpec{{Name: "main.tf.json", Text: js}}))
+			for _, q := range []run.Query{{Kind: run.SymbolsFile, File: "main.tf.json"}, {Kind: run.SymbolsWS, Query: ""}} {
+				r := run.Call(w, q)
+				l.Count("calls", 1)
+				l.Count("json_outlines", 1)
+				ss, ok := r.Val.([]decoder.Symbol)
+				if !ok || r.Panic != nil || r.Err != nil {
+					// (the per-file entry point answers "unknown file format" for JSON on this tree; the
+					// workspace query is the one that decodes JSON with the schema)
+					l.Count("json_outline_errors", 1)
+					continue
+				}
+				got := fmt.Sprint(projectSymbols(ss))
+				if got != want {
+					clause := "json:outline-differs"
+					if fmt.Sprint(sortSyms(projectSymbols(ss))) == fmt.Sprint(sortSyms(expect(cfg))) {
+						clause = "json:not-in-source-order"
+					}
+					c.Add(&report.Violation{Clause: clause, Site: string(q.Kind), Check: "json-order", SchemaID: ent.ID, Files: []report.FileSpec{{Path: "/p0", Name: "main.tf.json", Text: js}}, Query: report.J(q),
+						Detail: fmt.Sprintf("outline of the JSON file (array form %v):\n got:  %s\n want: %s\nfile:\n%s", arrayForm, got, want, js)})
+				}
+				if len(ss) > 0 {
+					l.Count("nontrivial", 1)
+					l.Outcome(got)
 				}
 			}
 		}
